@@ -6,6 +6,7 @@ cd "$HERE"
 mkdir -p .work replay evidence
 PYTHONPATH="${VERIF_REPO:-/repo}" /venv/bin/python harness/genparams.py
 PYTHONPATH="${VERIF_REPO:-/repo}" /venv/bin/python harness/pytrans.py
+PYTHONPATH="${VERIF_REPO:-/repo}" /venv/bin/python harness/pytrans2.py
 cd coq
 coq_makefile -f _CoqProject -o Makefile
 timeout 3000 make -j16
